@@ -154,6 +154,7 @@ Proof.
   { unfold k. rewrite Heven at 1. rewrite Z.mul_comm, Z.quot_mul by lia. reflexivity. }
   rewrite Hq.
   eexists. split; [reflexivity|].
+  replace ((N - t * t =? 0) && (0 =? 0)) with (N - t * t =? 0) by (rewrite Z.eqb_refl, Bool.andb_true_r; reflexivity).
   destruct (Z.eqb_spec (N - t * t) 0) as [Hsq|Hns].
   - (* perfect square *)
     cbn [approx_and_then].
